@@ -409,7 +409,9 @@ Lemma pc_of_ok s h pc : Inv s -> pc_of s h = Some pc -> pc <> HDead ->
 Proof.
   intros I H Hd. unfold pc_of in H. destruct (nth_error (hs s) h) as [pc0|] eqn:E; [|discriminate].
   assert (Hok0 : h_ok s pc0) by (apply (I_h s I h); exact E).
-  destruct pc0; try (inversion H; subst; exists pc; repeat split; auto; try (destruct pc; simpl; congruence); fail).
+  destruct pc0 as [ | | |mv|p next|c kont|k| | | ];
+    try (exfalso; inversion H; subst; apply Hd; reflexivity);
+    try (inversion H; subst; eexists; split; [reflexivity|split; [reflexivity|split; [reflexivity|split; [exact Hok0|left; reflexivity]]]]; fail).
   destruct (nth_error (cs s) c) as [e|] eqn:Ec.
   - destruct (cst e) eqn:Est; try (inversion H; subst; eexists; repeat split; eauto; fail).
     inversion H; subst. exists (HSleep c kont). repeat split; auto.
@@ -440,11 +442,10 @@ Lemma cb_ok_frame s s' c e :
   val s' = val s ->
   cb_ok s' c e.
 Proof.
-  intros [H1 [H2 H3]] Hw Hr Hv. repeat split.
+  intros [H1 [H2 H3]] Hw Hr Hv. unfold cb_ok. split; [|split].
   - intros Hq. auto.
-  - destruct (cst e); auto. destruct H2 as [Ha [Hb Hc]]. repeat split; auto.
-    + intros ->. destruct (Hr _ eq_refl) as [R1 R2]. destruct (Hc eq_refl). rewrite R1. auto.
-    + intros ->. destruct (Hr _ eq_refl) as [R1 R2]. destruct (Hc eq_refl). rewrite R2. auto.
+  - destruct (cst e) eqn:Ec; auto. destruct H2 as [Ha [Hb Hc]]. split; [exact Ha|split; [exact Hb|]].
+    intros ->. destruct (Hr _ eq_refl) as [R1 R2]. destruct (Hc eq_refl) as [C1 C2]. rewrite R1, R2. auto.
   - rewrite Hv. exact H3.
 Qed.
 
@@ -491,4 +492,34 @@ Proof.
   intros I Hd Hl. split.
   - intros h' Hh'. destruct (excl_out s h' I Hh') as [Hf _]. congruence.
   - intros c' e' dc Hc He. destruct (excl_conn s c' e' dc I Hc He) as [Hf _]. apply (Hl c'). exact Hf.
+Qed.
+
+(* ---- preservation: steps of a handle that change nothing but its own state and the logs -------------------------- *)
+
+Definition local_upd (h : nat) (pc' : hpc) g i n r (s : st) : st :=
+  set_h h pc' (set_gots g (set_iruns i (set_nfail n (set_readys r s)))).
+
+Lemma inv_local s h pc0 pc' g i n r :
+  Inv s -> nth_error (hs s) h = Some pc0 -> live pc0 = true -> live pc' = true ->
+  h_ok s pc' ->
+  (slot s = Moved -> spent_or_dead pc') ->
+  Forall (fun v => v = val s /\ v <> None) g ->
+  Forall (fun v => v = val s /\ v <> None) i ->
+  Forall (fun p => fst p = true -> snd p = true) r ->
+  n + (if inl_pc pc0 then 1 else 0) + length (iruns s) = nfail s + (if inl_pc pc' then 1 else 0) + length i ->
+  Inv (local_upd h pc' g i n r s).
+Proof.
+  intros I Hn Hl Hl' Hok Hm Hg Hi Hr Hf. unfold local_upd.
+  constructor; sf; try (apply I; fail); auto.
+  - pose proof (count_upd live _ _ _ pc' Hn) as C. rewrite Hl, Hl' in C. rewrite (I_refs s I). lia.
+  - intros c e Hc. eapply cb_ok_frame; [apply (I_cb s I); exact Hc|auto|auto|auto].
+  - intros h' pc'' Hh. rewrite nth_upd in Hh. destruct (Nat.eqb h h') eqn:E.
+    + rewrite Nat.eqb_eq in E. subst h'. rewrite Hn in Hh. inversion Hh; subst.
+      eapply h_ok_frame; [exact Hok|auto|auto|intros; eauto].
+    + eapply h_ok_frame; [apply (I_h s I h'); exact Hh|auto|auto|intros; eauto].
+  - intros Hmv. destruct (I_moved s I Hmv) as [M1 M2]. split; [|exact M2].
+    intros h' pc'' Hh. rewrite nth_upd in Hh. destruct (Nat.eqb h h') eqn:E.
+    + rewrite Nat.eqb_eq in E. subst h'. rewrite Hn in Hh. inversion Hh; subst. auto.
+    + eapply M1; eauto.
+  - pose proof (count_upd inl_pc _ _ _ pc' Hn) as C. pose proof (I_fail s I). lia.
 Qed.
